@@ -328,6 +328,20 @@ class FakeSnowflakeCursor:
                 elif cmd == "DROP SCHEMA" and ident == self._conn.schema:
                     self._conn.schema = None
 
+        if (cmd in ("DROP TABLE", "DROP SCHEMA") or (cmd == "CREATE TABLE" and transformed.args.get("replace"))) and (
+            table := transformed.find(exp.Table)
+        ):
+            # a dropped or replaced table takes its recorded comment and text lengths with it
+            if cmd == "DROP SCHEMA" and table.args.get("this"):
+                # DROP SCHEMA IF EXISTS <db>.<schema> parses like a table name
+                catalog, schema = table.db or self._conn.database, table.name
+            else:
+                catalog, schema = table.catalog or self._conn.database, table.db or self._conn.schema
+            if catalog and schema:
+                self._duck_conn.execute(
+                    info_schema.delete_table_ext_sql(catalog, schema, None if cmd == "DROP SCHEMA" else table.name)
+                )
+
         if (table_comment := cast(tuple[exp.Table, str], transformed.args.get("table_comment"))) and table_comment[
             1
         ] is not None:
